@@ -489,6 +489,15 @@ def canonical_stmts(tree: ast.Module) -> ast.Module:
         for i_, node in enumerate(tree.body):
             if isinstance(node, (ast.FunctionDef, ast.ClassDef)) and not (isinstance(node, ast.ClassDef) and any(k[0] == node.name for k in ns_consts)):
                 tree.body[i_] = _NS().visit(node)
+    # a display that some function mutates (`_cache[key] = v`, `_items.append(x)`) is state, not a constant
+    _mut = ("append", "extend", "insert", "update", "setdefault", "pop", "popitem", "clear", "remove", "add", "discard", "sort", "reverse")
+    for n in ast.walk(tree):
+        if isinstance(n, ast.Subscript) and isinstance(n.ctx, (ast.Store, ast.Del)) and isinstance(n.value, ast.Name):
+            consts.pop(n.value.id, None)
+        elif isinstance(n, ast.Call) and isinstance(n.func, ast.Attribute) and n.func.attr in _mut and isinstance(n.func.value, ast.Name):
+            consts.pop(n.func.value.id, None)
+        elif isinstance(n, ast.AugAssign) and isinstance(n.target, ast.Name):
+            consts.pop(n.target.id, None)
     # a constant that any function rebinds through `global` is not a constant
     for n in ast.walk(tree):
         if isinstance(n, ast.Global):
